@@ -6,7 +6,11 @@ Constant) and every single-fault variant of an otherwise valid class statement a
 typedpy (both guards on and off); the observable facts of each class object, or the exception, are compared
 in Coq with `define` (correspondence); the inclusions of the property and "a faulty statement raises" are
 evaluated in Coq on the OBSERVED classes; inherited-field behaviour, "no class is produced" and
-AbstractStructure are evaluated on the implementation directly."""
+AbstractStructure are evaluated on the implementation directly.  Two enumerated streams (harness/c14lattice.py):
+the default-fault lattice (field spelling x default spelling x falsy/truthy value x placement; judged on the
+implementation: a default the field itself rejects, or a mutable literal, must make the class statement raise) and
+the hierarchy-shape lattice (diamonds and other non-linear shapes x overriding classes x override kinds; through the
+Coq pipeline and, on the implementation, field map against attribute lookup along the MRO)."""
 import copy
 import random
 
@@ -14,6 +18,7 @@ from harness import core
 from harness import coqemit as E
 from harness import fieldgen as G
 from harness import defgen as D
+from harness import c14lattice as L
 from harness.props import c12 as C12
 
 CLAUSE = {1: "fields-mono", 2: "required-mono", 3: "inherited-default"}
@@ -52,7 +57,7 @@ def gen_hierarchy(rnd, tag, max_depth):
         if used and rnd.random() < 0.25:
             names.append(rnd.choice(used))             # a name another root declares, too
         names = list(dict.fromkeys(names))
-        s = D.gen_stmt(rnd, "R%s_%d" % (tag, i), [base], names, p_const=0.12)
+        s = respell(rnd, D.gen_stmt(rnd, "R%s_%d" % (tag, i), [base], names, p_const=0.12))
         steps.append(["def", s])
         classes.append((s["name"], 1))
     depth = rnd.randint(2, max_depth)
@@ -70,7 +75,7 @@ def gen_hierarchy(rnd, tag, max_depth):
             if used and rnd.random() < 0.3:
                 names.append(rnd.choice(used))         # redeclare an inherited name
             names = list(dict.fromkeys(names))
-            s = D.gen_stmt(rnd, "L%d%s_%d" % (lvl, tag, j), bases, names, p_const=0.1)
+            s = respell(rnd, D.gen_stmt(rnd, "L%d%s_%d" % (lvl, tag, j), bases, names, p_const=0.1))
             r = rnd.random()
             if r < 0.25:
                 s["required"] = sorted(set(rnd.sample(used, rnd.randint(0, min(3, len(used))))))
@@ -81,6 +86,20 @@ def gen_hierarchy(rnd, tag, max_depth):
             steps.append(["def", s])
             classes.append((s["name"], lvl))
     return steps
+
+
+def respell(rnd, s, p=0.3):
+    """Writes some declarations of statement s in another spelling of the same field (bare Field class, python type)."""
+    for m in s["members"]:
+        if m["kind"] == "decl" and m.get("kwd") is None and not m.get("imm") and rnd.random() < p:
+            sp = L.bare_spellings(m["field"], m.get("style") or "ann")
+            if (m.get("eqd") or [None])[0] == "factory":
+                # next to a plain python type typedpy calls the factory once, at definition, and keeps the VALUE as the
+                # default (_type_with_default_value_if_exists): another default object than the model's statement has
+                sp = [x for x in sp if not x[0].islower()]
+            if sp:
+                m["spell"] = rnd.choice(sp)
+    return s
 
 
 def run_steps(steps, guards):
@@ -123,8 +142,14 @@ def fault_variants(rnd, s, ctx):
                 if bad is None:
                     continue
                 m["kwd"] = None
-                m["eqd"] = ["lit", bad]
+                m["eqd"] = ["lit", bad] if rnd.random() < 0.8 else ["factory", bad]
                 m["style"] = "ann"
+                sp = L.bare_spellings(m["field"])
+                if m["eqd"][0] == "factory":
+                    sp = [x for x in sp if not x[0].islower()]
+                if sp and rnd.random() < 0.6:
+                    m["spell"] = rnd.choice(sp)
+                    m["imm"] = False
                 return True
         return False
 
@@ -325,6 +350,23 @@ def inherited_clauses(rnd, prog, ns, fmaps, rep, report, n_vals):
     return n_eval
 
 
+def base_values(rnd, prog, ns, fmaps):
+    """class name -> python kwargs of a valid instance (None when none was found)."""
+    out = {}
+    for st in prog:
+        if st[0] != "def":
+            continue
+        cls = ns.get(st[1]["name"])
+        if cls is None:
+            continue
+        kw = C12.base_kwargs(rnd, cls, fmaps.get(st[1]["name"], {}))
+        try:
+            out[st[1]["name"]] = None if kw is None else {k: G.unreify(v, {}) for k, v in kw.items()}
+        except Exception:  # noqa
+            out[st[1]["name"]] = None
+    return out
+
+
 def required_key(prog, outs, step):
     """Key of a required-mono failure: is the lost name declared optional by an earlier base (MRO shadowing)?"""
     s = prog[step][1]
@@ -349,7 +391,7 @@ def required_key(prog, outs, step):
 
 
 def evaluate(cases, tag="c14"):
-    per = 60
+    per = max(12, min(60, -(-len(cases) // 16)))      # one shard per core
     shards = []
     for s in range(0, len(cases), per):
         items = [D.emit_case(p, o, g) for p, o, g in cases[s:s + per]]
@@ -396,12 +438,18 @@ def run(rep, tier):
     cases = []
     findings = []
     kinds = {}        # case index -> {step: fault kind}
+    not_faithful = set()   # programs showing the listed _constants defect, which the model (MRO based) does not have
 
-    def reporter(prog):
+    def reporter(prog, ns=None):
         src = D.program_src(prog)
 
         def report(key, what, data):
+            cls = (ns or {}).get(data.get("class"))
+            if key.startswith("C14/inherited") and cls is not None and data.get("field") and L.const_shadowed(cls, data["field"]):
+                key = L.K_CONST_SHADOW          # a consequence of that listed defect: same root cause, same key
             findings.append((key, what, dict(data, python=src, program=prog)))
+            if key == L.K_CONST_SHADOW:
+                not_faithful.add(id(prog))
         return report
 
     # stream 1: hierarchies
@@ -410,7 +458,8 @@ def run(rep, tier):
         guards = (True, True) if i % 5 else (rnd.random() < 0.5, rnd.random() < 0.5)
         prog, outs, ns = run_steps(steps, guards)
         fm = D.field_ast_map(prog, ns)
-        n = inherited_clauses(rnd, prog, ns, fm, rep, reporter(prog), n_vals)
+        n = inherited_clauses(rnd, prog, ns, fm, rep, reporter(prog, ns), n_vals)
+        n += L.mro_clauses(prog, ns, reporter(prog, ns), base_values(rnd, prog, ns, fm))
         for st, o in zip(prog, outs):
             if st[0] == "def":
                 rep.count("hierarchy", 1, (len(st[1]["bases"]), len(st[1]["members"]), st[1]["required"] is not None,
@@ -420,6 +469,33 @@ def run(rep, tier):
                 rep.stat("hierarchy", "bases:%d" % len(st[1]["bases"]))
         rep.count("hierarchy:values", n)
         cases.append((prog, outs, guards))
+    # stream 1b: the lattice of hierarchy shapes x override positions x override kinds (enumerated)
+    for shape, sub, okinds, rd, steps in L.shape_programs(tier, core.seed()):
+        prog, outs, ns = run_steps(steps, (True, True))
+        fm = D.field_ast_map(prog, ns)
+        n = inherited_clauses(rnd, prog, ns, fm, rep, reporter(prog, ns), n_vals)
+        n += L.mro_clauses(prog, ns, reporter(prog, ns), base_values(rnd, prog, ns, fm))
+        last = outs[-1]
+        rep.count("shape-lattice", 1, (shape, tuple(sub), tuple(sorted(set(okinds.values()))), rd,
+                                       last[0] if last[0] != "raise" else last[1]))
+        rep.stat("shape-lattice", "shape:" + shape)
+        rep.stat("shape-lattice", "overriders:%d" % len(sub))
+        rep.stat("shape-lattice", "outcome:" + ("all-defined" if len(prog) == len(steps) and last[0] != "raise" else
+                                                "stopped-at-%s" % last[1]))
+        for k in set(okinds.values()):
+            rep.stat("shape-lattice", "kind:" + k)
+        rep.count("shape-lattice:values", n)
+        cases.append((prog, outs, (True, True)))
+    # stream 1c: the lattice of default faults: field spelling x default spelling x value x placement (enumerated)
+    probe = L.Probe()
+    for case in L.default_cases(tier, core.seed()):
+        st_, key, what, rp = L.judge_default_case(case, probe)
+        rep.count("default-lattice", 1, (case[0], L.spelling_class(case[1], L.TAKES_KW[case[1]]), case[2], case[3], case[5], st_))
+        rep.stat("default-lattice", "status:" + st_)
+        rep.stat("default-lattice", "placement:" + case[5])
+        rep.stat("default-lattice", "default-spelling:" + case[3])
+        if st_ == "fail":
+            findings.append((key, what, rp))
     # stream 2: every single-fault variant of a valid class statement, guards on and off
     for i in range(n_fault):
         tag = "f%d" % i
@@ -529,7 +605,9 @@ def run(rep, tier):
             rep.obligation("spec-on-observed:inclusions+faults", n_spec == 0,
                            "%d class statements checked in Coq, %d clause failures" % (
                                sum(1 for p, _, _ in cases for s in p if s[0] == "def"), n_spec))
-            bad = [(ci, m) for ci, m in enumerate(mism) if m]
+            bad = [(ci, m) for ci, m in enumerate(mism) if m and id(cases[ci][0]) not in not_faithful]
+            rep.cov["streams"]["hierarchy"]["programs_with_listed_constants_defect_not_compared"] = len(
+                [1 for ci, m in enumerate(mism) if m and id(cases[ci][0]) in not_faithful])
             rep.obligation("correspondence:define", not bad, "%d programs (%d steps), %d with mismatches" % (
                 len(cases), n_steps, len(bad)))
             if len(unm) * 5 > len(cases):
@@ -549,17 +627,24 @@ def run(rep, tier):
         "re.match is an oracle (Section variable), instantiated per case from the real re module (default validation)",
         "class objects are values keyed by class name (each class of a program has its own name); plain mix-in classes carry no attributes",
         "a statement gives a field at most one of `default=` and `= value`; field declarations contain no class references",
+        "programs on which the implementation shows the listed defect C14-constant-shadows-field-override (reported as a finding "
+        "with the program as replay) are not compared with the model, whose _constants follow the MRO",
         "the ImmutableField subclass fault is checked on the implementation only (model: define_field_class, not corresponded)",
     ]
     return rep.finish(
         rule="programs = hierarchies of depth <= %d (1-3 roots incl. AbstractStructure children, 1-2 Structure bases per class, "
              "mix-ins in any position, own/redeclared/inherited names, _required/_optional naming own and inherited fields, "
              "defaults by default= and by '=', constants), guards on/off; plus every single-fault variant (13 kinds) of a valid "
-             "class statement placed on top of a hierarchy, guard-dependent ones under both settings; distinct = distinct "
+             "class statement placed on top of a hierarchy, guard-dependent ones under both settings; declarations at random as "
+             "bare Field class / python type; ENUMERATED: hierarchy shapes (13) x subsets of overriding classes x override kinds "
+             "(quick: kinds in rotation), default faults = field spellings (63) x default spellings (6) x values x placements "
+             "(quick: 2 placements per combination in rotation; thorough: all 10); distinct = distinct "
              "(#bases, #members, _required?, _optional?, outcome, member kinds) / (fault kind, guards, outcome)" % max_depth)
 
 
 def replay(obj):
+    if obj.get("lattice") == "default":
+        return L.replay_default(obj)
     prog = obj.get("program")
     if prog is None:
         print(obj.get("detail", "no program recorded"))
@@ -590,6 +675,8 @@ def replay(obj):
     rep = core.Report("C14", "quick")
     found = []
     inherited_clauses(random.Random(5), prog2, ns, D.field_ast_map(prog2, ns), rep, lambda k, w, d: found.append((k, w)), 6)
+    fm2 = D.field_ast_map(prog2, ns)
+    L.mro_clauses(prog2, ns, lambda k, w, d: found.append((k, w)), base_values(random.Random(5), prog2, ns, fm2))
     for k, w in found:
         print("implementation-side clause fails:", k, "|", w)
         bad = 1
